@@ -403,6 +403,24 @@ def revert_content():
     save("revert_content", ["C02", "C04", "C07", "C13", "C14", "C01"], steps)
 
 
+def tz_pairs():
+    """one history with commits made under offsets of equal magnitude and opposite sign, then read back in one run of log"""
+    steps = head()
+    n = 0
+    for off in (300, -300, 330, -330, 0, 45, -45, 765, -720, 840, -15, 15):
+        n += 1
+        steps.append({"ev": "settz", "off": off})
+        steps.append(w("a", "v%d" % n))
+        steps.append({"ev": "add", "paths": ["a"]})
+        steps.append({"ev": "commit", "msg": esc("at %d" % off)})
+        steps.append({"ev": "log", "n": 3})
+    steps.append({"ev": "settz", "off": 0})
+    steps.append({"ev": "log", "n": 12})
+    steps.append({"ev": "settz", "off": -300})
+    steps.append({"ev": "log", "n": 12})
+    save("tz_pairs", ["C12", "C14"], steps)
+
+
 if __name__ == "__main__":
     name_lengths()
     big_index()
@@ -416,3 +434,4 @@ if __name__ == "__main__":
     reflog_100()
     empty_states()
     revert_content()
+    tz_pairs()
